@@ -356,6 +356,30 @@ func runC14(c *Ctx, r *Report) {
 		}
 		r.Floor("C14.R5", 1)
 	}
+
+	// shared C13.R8: load() and auto-load evaluate through EvalString, which always rewrites the program with
+	// ast.Modify (macro expansion): an attribute the rewrite drops is gone from the next save
+	if !r.Sub {
+		r.Rule("C13.R8", "(shared) ast.Modify carries every field of a node over to the node it rebuilds")
+		sub := NewReport("C13", r.Tier, c)
+		sub.Sub = true
+		runC13(c, sub)
+		n := 0
+		for _, o := range sub.Obls {
+			if o.Rule != "C13.R8" {
+				continue
+			}
+			n++
+			if o.status == FAIL {
+				r.Fail(o.Rule, o.Func, o.Desc, o.Pos, o.Reason)
+			} else {
+				r.Ok(o.Rule, o.Func, o.Desc, o.Pos)
+			}
+		}
+		if n < 20 {
+			r.Undecided("C14: only %d shared C13.R8 obligations", n)
+		}
+	}
 }
 
 func init() {
